@@ -220,7 +220,7 @@ class Script:
         self.nq = 0
         self.files = {}
 
-    def file(self, lines, rng=None, serial=1700000000, opts=None, keep=False, tag="", sepmix=True):
+    def file(self, lines, rng=None, serial=1700000000, opts=None, keep=False, tag="", sepmix=True, clause=""):
         self.nfile += 1
         text = []
         for l in lines:
@@ -228,7 +228,7 @@ class Script:
             text.append(render(l, rng, sep))
         body = "\n".join(text) + "\n"
         self.rows.append({"ev": "file", "id": self.nfile, "text": body, "serial": serial, "lines": [strip(l) for l in lines],
-                          "opts": opts, "keep": keep, "tag": tag})
+                          "opts": opts, "keep": keep, "tag": tag, "clause": clause})
         self.files[self.nfile] = body
         return self.nfile
 
